@@ -194,6 +194,11 @@ def agree(c, out, res):
     if c.get('cut'):
         if out.startswith('err') and 'err' in rv:
             return None
+        if out.startswith('ok ') and 'err' not in rv:
+            # the cut removed exactly one optional record: what is left is a complete file, read as such by both
+            _, kv = lib.parse_kv('x ' + out[3:])
+            d = _diff_view(kv, rv)
+            return ('a file cut short by %d words is itself a complete file: %s' % (c['cut'], d)) if d else None
         return 'a file cut short by %d words: model %s, reader %s' % (c['cut'], out[:30], rv.get('err', 'returned a file'))
     if not out.startswith('ok '):
         return 'reader model: %s' % out[:40]
